@@ -8,6 +8,18 @@ NA = [
  ("C10", "pure function composition render/parse/render; nothing for a simulator to vary (DESIGN.md section 5)"),
 ]
 CHECKS = {
+ "C09": ("exploration", "5/C09",
+   "Seeded search over stored EMLs (builder renderings, repository fixtures, random bytes) damaged by storage faults at token-biased offsets and read back through fault-injecting readers or the string/file entry points; every parse is monitored for panics and for termination. Sampling of an unbounded input space, not proof.",
+   "Trusted: the mutation engine and reader; termination judged by a 10 s wall-clock watchdog (re-checked once).",
+   "fault injection on stored bytes and reader behaviour (simulated disk), panic/termination monitor"),
+ "C11": ("exploration", "5/C11",
+   "Seeded histories of render operations over all output paths (WriteTo, Write, Reader, UpdateReader, WriteToFile, WriteToTempFile, Send through the simulated network) interleaved with failed renders (failing sink, failing producer), on generated messages over all file sources and encodings, with the virtual clock advanced and the seeded randomness running between operations; every successful render is compared with the first.",
+   "Trusted: simulation kernel/transport/reference server for the Send path, fault-injecting producers and sink. Go's map iteration order has no seam: caught by repetition (>= 6 renders per history; replays repeat up to 20 times).",
+   "deterministic simulation: seeded operation histories with injected render failures, virtual clock, first-render reference"),
+ "C18": ("exploration", "5/C18",
+   "Seeded search over header values and content lengths around the 3/57/76 wrapping points, each message rendered under two independently drawn producer chunkings; a structural MIME reader checks CRLF discipline, line lengths and header round-trip on the raw bytes, and the two renderings must be byte-identical.",
+   "Trusted: the oracle's MIME walker and mime.WordDecoder. One known finding (part headers below top level are not folded) is listed in known_findings.json.",
+   "schedule exploration over producer write chunkings, line-discipline scanner, chunking-independence check"),
  "C03": ("exploration", "5/C03",
    "Seeded swarm search over batches of generated messages with faults placed inside in-flight operations: producer failures at three positions, transport reset / failing write / peer-stops-reading at byte offsets of eight classes located by a fault-free probe run, scripted 4yz/5yz/disconnect/lost-reply at MAIL..RSET. The reference server's commit log decides byte-identity, at-most-once and the IsDelivered equivalence exactly; sampling, not proof.",
    "Trusted: simulation kernel/transport, reference server, the harness' own healthy re-render as 'complete rendering'. Two-generals relaxation: IsDelivered may be false when the 2yz reply was not delivered completely.",
